@@ -183,8 +183,19 @@ class Check:
             for n, (sigtxt, wits) in enumerate(sorted(bysig.items())):
                 p = os.path.join(rdir, 'violation_%02d.json' % n)
                 with open(p, 'w') as f:
+                    sc = {}
+                    for w_ in wits:
+                        key = json.dumps({k: v for k, v in w_['signature'].items() if k != 'argv'}, sort_keys=True)
+                        sc[key] = sc.get(key, 0) + 1
+                    # keep witnesses of different full signatures rather than the first five
+                    seen, keep = set(), []
+                    for w_ in wits:
+                        key = json.dumps({k: v for k, v in w_['signature'].items() if k != 'argv'}, sort_keys=True)
+                        if key not in seen and len(keep) < 12:
+                            seen.add(key)
+                            keep.append(w_)
                     json.dump({'property': self.pid, 'signature': json.loads(sigtxt),
-                               'count': len(wits), 'witnesses': wits[:5],
+                               'count': len(wits), 'signature_counts': sc, 'witnesses': keep,
                                'rerun': 'bin/check %s --replay %s' % (self.pid, p)},
                               f, indent=1, default=str)
                 replay_paths.append(p)
